@@ -432,6 +432,9 @@ def _step_cases(tier):
     for f in ("full", "pressure", "flux_reduced"):
         add(method="bregman", form=f, L=0.25)
         add(method="bregman", form=f, L=4.0, shape=(2, 2))
+    for m in ("newton", "bregman"):
+        add(method=m, num_iter=0, shape=(2, 2), form="pressure")          # empty iteration budget: what comes back is the Darcy initialisation and ITS cost
+        add(method=m, num_iter=1, shape=(2, 2), form="pressure")
     add(method="bregman", adaptive=True, form="pressure")
     add(method="bregman", adaptive=True, form="full", shape=(2, 2))
     if tier != "quick":
